@@ -421,6 +421,8 @@ def describe_rejection(tout):
 # ---------------------------------------------------------------- evidence
 
 def sample_behaviours(cx, path, k=2):
+    if not path:
+        return
     try:
         ls = read_lines(path)
         step = max(1, len(ls) // k)
@@ -500,6 +502,12 @@ def main():
         return props.PROPS[pid](cx)
     except Machinery as e:
         log("MACHINERY: " + str(e))
+        if cx.violations:
+            # an earlier stage of this check already reproduced violations on the real code: report them
+            for what, d in cx.violations:
+                log("  " + what)
+                log("VIOLATION property=%s replay=%s" % (cx.pid, d))
+            return 1
         return 2
     except subprocess.TimeoutExpired as e:
         log("MACHINERY: timeout: " + str(e))
